@@ -86,6 +86,23 @@ let () =
      | "oab", [mode; bs; basehex; hex] ->
          let (st, out) = if mode = "F" then oab_run (n_of_int (int_of_string bs)) (bytes_of_hex hex) else oab_patch_run (bytes_of_hex hex) (bytes_of_hex basehex) in
          Printf.printf "%d %s\n" (int_of_n st) (hex_of_bytes out)
+     | "cab", [salv; fixz; bs; ops; hex] ->
+         let ops = if ops = "-" then [] else List.map n_of_int (ints ops) in
+         let ((e, r), res) = cab_session (bytes_of_hex hex) (salv = "1") (fixz = "1") (n_of_int (int_of_string bs)) ops in
+         let b = Buffer.create 4096 in
+         let so = function None -> "-" | Some l -> if l = [] then "e" else hex_of_bytes l in
+         (match r with
+          | None -> Buffer.add_string b (Printf.sprintf "E%d" (int_of_n e))
+          | Some c ->
+            Buffer.add_string b (Printf.sprintf "H%d %d %d %d %d %d %s %s %s %s" (int_of_n c.c_len) (int_of_n c.c_setid) (int_of_n c.c_idx) (int_of_n c.c_hres) (int_of_n c.c_flags) (int_of_z c.c_base)
+                                   (so c.c_prev) (so c.c_next) (so c.c_pinfo) (so c.c_ninfo));
+            List.iter (fun f -> Buffer.add_string b (Printf.sprintf ";D %d %d" (int_of_n f.fo_comp) (int_of_n f.fo_nblocks))) c.c_folders;
+            List.iter (fun f -> Buffer.add_string b (Printf.sprintf ";F %s %d %d %d %d %d:%d:%d %d-%d-%d" (if f.fi_name = [] then "e" else hex_of_bytes f.fi_name) (int_of_n f.fi_len) (int_of_n f.fi_attr) (int_of_n f.fi_folder) (int_of_n f.fi_off)
+                                   (int_of_n f.fi_th) (int_of_n f.fi_tm) (int_of_n f.fi_ts) (int_of_n f.fi_dy) (int_of_n f.fi_dm) (int_of_n f.fi_dd))) c.c_files);
+         List.iter (fun r -> match r with
+           | None -> Buffer.add_string b "#-"
+           | Some (st, out) -> Buffer.add_string b (Printf.sprintf "#X %d %s" (int_of_n st) (hex_of_bytes out))) res;
+         print_endline (Buffer.contents b)
      | "lzss", [mode; hex] -> Printf.printf "0 %s\n" (hex_of_bytes (lzss_spec (n_of_int (int_of_string mode)) (bytes_of_hex hex)))
      | _ -> print_endline "?");
     flush stdout
